@@ -204,14 +204,14 @@ func init() {
 			"(raw / typed bolt cursors forward and reverse, TypedBucket.OpenCursor/OpenTypedCursor/OpenSeekableCursor/IterateStringList(InDirection), set index OpenValueCursor/OpenKeyCursor, GetRelatedEntitiesCursor, " +
 			"LinkCollection.IterateLinks, ref-counted IterateLinks, set-symbol runtime cursor with SeekToString, IterateIds/IterateValidIds with Seek, NewFilteredCursor, TreeSet.ToCursor, NewUnionSetCursor, IteratorMatchingAllOf/AnyOf, empty cursors) " +
 			"(a TreeSet also after it kept growing between cursors) is driven through a full enumeration (also one that starts with one or two Next calls before the first look at the cursor), every one of 20 seek targets (present, absent, before first, after last, shared prefixes) and random Next/Seek interleavings and compared step by step with a sorted-slice reference cursor; every slice Current handed out is kept and must still hold its element when the run is over; " +
-			"thorough enumerates all 256 subsets (exhaustive over kind x subset x target), quick a seeded 48 incl. the empty and the full set. non-trivial = distinct (kind, subset, target) triples",
+			"part (b): elements and seek targets of 31-33, 63-65, 127-129 and 255-257 bytes sharing all but their last bytes, under the typed cursors; thorough enumerates all 256 subsets (exhaustive over kind x subset x target), quick a seeded 48 incl. the empty and the full set. non-trivial = distinct (kind, subset, target) triples",
 		Assumptions: []string{"Next is not called on an exhausted cursor (unspecified); Seek on an exhausted cursor is", "dotted (stacked) set cursors enumerate a multiset in path order and are compared as multisets only"},
 		Exhaustive:  func(t core.Tier) bool { return t == core.Thorough },
 		Plan: func(tier core.Tier, seed int64) int {
 			if tier == core.Thorough {
-				return 256 * 16 // every subset 16 times: different child-data patterns and Next/Seek interleavings
+				return 256*16 + c14LongCases*8 // every subset 16 times: different child-data patterns and Next/Seek interleavings
 			}
-			return 96
+			return 96 + c14LongCases
 		},
 		Run: runC14,
 		Promises: func(core.Tier) map[string][]string {
@@ -221,13 +221,21 @@ func init() {
 				"TypedBucket.IterateStringList", "TypedBucket.IterateStringListInDirection/fwd", "TypedBucket.IterateStringListInDirection/rev",
 				"setIndex.OpenValueCursor/fwd", "setIndex.OpenValueCursor/rev", "setIndex.OpenKeyCursor/fwd", "setIndex.OpenKeyCursor/rev",
 				"GetRelatedEntitiesCursor/fwd", "GetRelatedEntitiesCursor/rev", "LinkCollection.IterateLinks", "RefCountedLinkCollection.IterateLinks/fwd", "RefCountedLinkCollection.IterateLinks/rev",
-				"setSymbolRuntime.OpenCursor", "setSymbolRuntime.OpenCursor (reopened on a row without the bucket)", "setSymbolRuntime.OpenCursor (reopened on another row)", "IterateIds", "IterateValidIds", "IterateIds(extended child store)", "IterateValidIds(extended child store)", "IterateIds(filtered)", "NewFilteredCursor", "TreeSet.ToCursor/fwd", "TreeSet.ToCursor/rev", "TreeSet.ToCursor (grown after an earlier cursor)/fwd", "TreeSet.ToCursor (grown after an earlier cursor)/rev", "NewUnionSetCursor/fwd", "NewUnionSetCursor/rev",
-				"IteratorMatchingAnyOf/1", "IteratorMatchingAnyOf/2/fwd", "IteratorMatchingAnyOf/2/rev", "IteratorMatchingAllOf/1", "IteratorMatchingAllOf/2", "IteratorMatchingAllOf/3 order 0", "IteratorMatchingAllOf/3 order 3", "IteratorMatchingAllOf/3 order 5", "IteratorMatchingAllOf/3 order 7", "IteratorMatchingAnyOf/3", "IteratorMatchingAnyOf/2 provider reused", "TypedBucket.OpenCursor/fwd while a reverse cursor is open", "TypedBucket.IterateStringList while a reverse list cursor is open", "TypedBucket.OpenTypedCursor/rev while a forward cursor is open", "EmptyCursor", "stackedCursor(dotted set)", "stackedCursor(dotted set ending in a scalar)", "sub-query cursor over a self-referencing set"}}
+				"setSymbolRuntime.OpenCursor", "setSymbolRuntime.OpenCursor (reopened on a row without the bucket)", "setSymbolRuntime.OpenCursor (reopened on another row)", "IterateIds", "IterateValidIds", "IterateIds(extended child store)", "IterateValidIds(extended child store)", "IterateIds(plain child store)", "IterateValidIds(plain child store)", "IterateIds(filtered)", "NewFilteredCursor", "TreeSet.ToCursor/fwd", "TreeSet.ToCursor/rev", "TreeSet.ToCursor (grown after an earlier cursor)/fwd", "TreeSet.ToCursor (grown after an earlier cursor)/rev", "NewUnionSetCursor/fwd", "NewUnionSetCursor/rev",
+				"IteratorMatchingAnyOf/1", "IteratorMatchingAnyOf/2/fwd", "IteratorMatchingAnyOf/2/rev", "IteratorMatchingAllOf/1", "IteratorMatchingAllOf/2", "IteratorMatchingAllOf/3 order 0", "IteratorMatchingAllOf/3 order 3", "IteratorMatchingAllOf/3 order 5", "IteratorMatchingAllOf/3 order 7", "IteratorMatchingAnyOf/3", "IteratorMatchingAnyOf/2 provider reused", "TypedBucket.OpenCursor/fwd while a reverse cursor is open", "TypedBucket.IterateStringList while a reverse list cursor is open", "TypedBucket.OpenTypedCursor/rev while a forward cursor is open", "EmptyCursor", "stackedCursor(dotted set)", "stackedCursor(dotted set ending in a scalar)", "sub-query cursor over a self-referencing set", "TypedBucket.OpenTypedCursor/fwd (long elements)", "TypedBucket.OpenTypedCursor/rev (long elements)", "NewTypedBoltCursor/fwd (long elements)", "NewTypedBoltCursor/rev (long elements)"}}
 		},
 	})
 }
 
 func runC14(c *core.Ctx, idx int) {
+	if n := map[bool]int{false: 96, true: 256 * 16}[c.Tier == core.Thorough]; idx >= n {
+		c14Long(c, idx-n)
+		return
+	}
+	runC14Main(c, idx)
+}
+
+func runC14Main(c *core.Ctx, idx int) {
 	r := c.Rand()
 	mask := idx % 256
 	if c.Tier != core.Thorough {
@@ -259,7 +267,8 @@ func runC14(c *core.Ctx, idx int) {
 		SetIdx: []string{"keys"},
 		Links:  []schema.LinkDef{{Field: "items", Target: "items", TargetField: "hubs"}, {Field: "ritems", Target: "items", TargetField: "rhubs", RefCounted: true}}}
 	itemsExt := &schema.StoreDef{Type: "items", Parent: "items", ChildPath: []string{"xt"}, Extended: true, Fields: []schema.Field{{Name: "extra", Kind: schema.KStr}}}
-	sc := schema.Build([]*schema.StoreDef{hubs, items, itemsExt})
+	itemsPk := &schema.StoreDef{Type: "items", Parent: "items", ChildPath: []string{"pk"}, Fields: []schema.Field{{Name: "pextra", Kind: schema.KStr}}}
+	sc := schema.Build([]*schema.StoreDef{hubs, items, itemsExt, itemsPk})
 	path := c.TempFile("c14")
 	db, err := sc.OpenDb(path)
 	if err != nil {
@@ -269,7 +278,7 @@ func runC14(c *core.Ctx, idx int) {
 	defer func() { _ = db.Close(); _ = os.Remove(path) }()
 	ist, hst := sc.St("items"), sc.St("hubs")
 	// second role "odd" for every other item (for AllOf/AnyOf with two values)
-	var odd, both, hi, oddHi []string
+	var odd, both, hi, oddHi, plainKids []string
 	kidsOf := map[string][]string{}
 	err = db.Update(nil, func(ctx boltz.MutateContext) error {
 		tx := ctx.Tx()
@@ -326,6 +335,10 @@ func runC14(c *core.Ctx, idx int) {
 			target := ist
 			if i%2 == 1 {
 				target = sc.St("items/xt") // created through the extended child store: has child data
+			} else if i14Pos(s)%2 == 0 {
+				target = sc.St("items/pk") // created through the plain child store
+				ent.V["pextra"] = "p"
+				plainKids = append(plainKids, s)
 			}
 			if err := target.Store.Create(ctx, ent); err != nil {
 				return err
@@ -489,6 +502,9 @@ func runC14(c *core.Ctx, idx int) {
 		xst := sc.St("items/xt")
 		add(c14Kind{name: "IterateIds(extended child store)", seekable: true, set: ne, open: func() ast.SetCursor { return xst.Store.IterateIds(tx, ast.BoolNodeTrue) }})
 		add(c14Kind{name: "IterateValidIds(extended child store)", seekable: true, set: odd, open: func() ast.SetCursor { return xst.Store.IterateValidIds(tx, ast.BoolNodeTrue) }})
+		pst := sc.St("items/pk")
+		add(c14Kind{name: "IterateIds(plain child store)", seekable: true, set: plainKids, open: func() ast.SetCursor { return pst.Store.IterateIds(tx, ast.BoolNodeTrue) }})
+		add(c14Kind{name: "IterateValidIds(plain child store)", seekable: true, set: plainKids, open: func() ast.SetCursor { return pst.Store.IterateValidIds(tx, ast.BoolNodeTrue) }})
 		if fq, err := ast.Parse(ist.Store, `anyOf(roles) = "odd"`); err == nil {
 			add(c14Kind{name: "IterateIds(filtered)", seekable: true, set: odd, open: func() ast.SetCursor { return ist.Store.IterateIds(tx, fq) }})
 		}
